@@ -231,6 +231,7 @@ type c15Stream struct {
 	RespKind string // normal, trailers-only, rst-after-headers, rst-before-headers, data-end, none
 	Code     http2.ErrCode
 	Early    bool
+	Ignored  bool // opened above the limit of a GOAWAY in force: the peer does not answer
 	Status   int
 
 	Path, Authority, Scheme string
@@ -258,6 +259,7 @@ type c15StreamDesc struct {
 	Code     string `json:"rst_code,omitempty"`
 	RespBody int    `json:"response_body_bytes"`
 	Early    bool   `json:"response_may_end_before_request,omitempty"`
+	Ignored  bool   `json:"opened_above_goaway_limit_no_response,omitempty"`
 }
 
 type c15Sample struct {
@@ -363,7 +365,9 @@ func c15Cut(tape *simrt.Tape, body []byte, num, den int, label string) []byte {
 }
 
 // c15Generate draws the streams, their frames and the global frame order.
-func c15Generate(tape *simrt.Tape, tier string) *c15Case {
+// illegalGoAway additionally allows a second GOAWAY that repeats or raises the
+// last stream id (c15-bytes only).
+func c15Generate(tape *simrt.Tape, tier string, illegalGoAway bool) *c15Case {
 	cs := &c15Case{}
 	cs.IsServer = tape.Bool(1, 2, "is-server")
 	maxStreams := 2
@@ -536,15 +540,40 @@ func c15Generate(tape *simrt.Tape, tier string) *c15Case {
 			queues = append(queues, s.resp)
 		}
 	}
-	if tape.Bool(1, 5, "goaway") {
-		g := &c15Frame{Dir: dirResp, Kind: fkGoAway, Stream: -1, deps: []*c15Frame{setS}}
-		ids := []uint32{0, 1<<31 - 1}
+	// GOAWAY plan: none, a single one, the graceful-shutdown pair (2^31-1 first, the
+	// real last id later), a pair whose second frame lowers the limit
+	{
+		ids := []uint32{0} // ascending and distinct
 		for _, s := range cs.Streams {
 			ids = append(ids, s.ID)
 		}
-		g.LastID = ids[tape.Choose(len(ids), "goaway-last")]
-		g.Code = []http2.ErrCode{http2.ErrCodeNo, http2.ErrCodeProtocol, http2.ErrCodeEnhanceYourCalm}[tape.Choose(3, "goaway-code")]
-		queues = append(queues, []*c15Frame{g})
+		ids = append(ids, 1<<31-1)
+		codes := []http2.ErrCode{http2.ErrCodeNo, http2.ErrCodeProtocol, http2.ErrCodeEnhanceYourCalm}
+		goAway := func(last uint32, code http2.ErrCode) *c15Frame {
+			return &c15Frame{Dir: dirResp, Kind: fkGoAway, Stream: -1, deps: []*c15Frame{setS}, LastID: last, Code: code}
+		}
+		plan := []int{0, 0, 0, 0, 0, 0, 0, 0, 0, 0, 0, 0, 0, 0, 6, 6, 8, 8, 10, 11}[tape.Choose(20, "goaway")]
+		if plan == 11 && !illegalGoAway {
+			plan = 8
+		}
+		switch plan {
+		case 6:
+			queues = append(queues, []*c15Frame{goAway(ids[tape.Choose(len(ids), "goaway-last")], codes[tape.Choose(3, "goaway-code")])})
+		case 8: // graceful shutdown
+			second := goAway(ids[tape.Choose(len(ids)-1, "goaway-last")], http2.ErrCodeNo)
+			if tape.Bool(1, 4, "goaway-final-error") {
+				second.Code = codes[1+tape.Choose(2, "goaway-code")]
+			}
+			queues = append(queues, []*c15Frame{goAway(1<<31-1, http2.ErrCodeNo), second})
+		case 10: // the second one lowers the limit
+			i := 1 + tape.Choose(len(ids)-1, "goaway-first")
+			j := tape.Choose(i, "goaway-second")
+			queues = append(queues, []*c15Frame{goAway(ids[i], codes[tape.Choose(3, "goaway-code")]), goAway(ids[j], codes[tape.Choose(3, "goaway-code2")])})
+		case 11: // same or higher id again: not legal, c15-bytes only
+			i := tape.Choose(len(ids), "goaway-first")
+			j := i + tape.Choose(len(ids)-i, "goaway-second")
+			queues = append(queues, []*c15Frame{goAway(ids[i], codes[tape.Choose(3, "goaway-code")]), goAway(ids[j], codes[tape.Choose(3, "goaway-code2")])})
+		}
 	}
 	// merge: value 0 always takes the first eligible queue (sequential exchange)
 	for {
@@ -571,6 +600,26 @@ func c15Generate(tape *simrt.Tape, tier string) *c15Case {
 		queues[qi] = queues[qi][1:]
 		f.emitted = true
 		cs.Frames = append(cs.Frames, f)
+	}
+	// A stream opened above the limit of a GOAWAY that is already in force is ignored
+	// by the peer (RFC 9113 6.8): it gets no response frames.
+	{
+		inForce, limit := false, uint32(0)
+		ignored := map[int]bool{}
+		kept := cs.Frames[:0]
+		for _, f := range cs.Frames {
+			switch {
+			case f.Kind == fkGoAway:
+				inForce, limit = true, f.LastID
+			case f.Kind == fkHeaders && f.Role == "request" && inForce && f.SID > limit:
+				ignored[f.Stream] = true
+				cs.Streams[f.Stream].Ignored = true
+			case f.Dir == dirResp && f.Stream >= 0 && ignored[f.Stream]:
+				continue
+			}
+			kept = append(kept, f)
+		}
+		cs.Frames = kept
 	}
 	// noise
 	for k := tape.Choose(4, "nnoise"); k > 0; k-- {
@@ -710,6 +759,7 @@ type c15Driver struct {
 	hash     uint64
 	ncalls   int
 	after    func()
+	callErr  error // error the current Read returns together with its data
 
 	faultKind string
 	faultAt   int
@@ -780,6 +830,7 @@ func (d *c15Driver) doRead(n int, err error) {
 	extra := []int{0, 0, 7, 1024}[d.tape.Choose(4, "bufextra")]
 	buf := bytes.Repeat([]byte{0xAA}, n+extra)
 	d.inner.nextN, d.inner.nextErr = n, err
+	d.callErr = err
 	before := len(d.inner.log)
 	var gn int
 	var gerr error
@@ -814,6 +865,7 @@ func (d *c15Driver) doWrite(n, keep int) {
 	p := append([]byte(nil), d.data[w][d.pos[w]:d.pos[w]+n]...)
 	orig := string(p)
 	d.inner.wKeep, d.inner.wErr = keep, c15ErrWrite
+	d.callErr = nil
 	before := len(d.inner.log)
 	var gn int
 	var gerr error
@@ -878,18 +930,28 @@ func (d *c15Driver) doClose(kind string) {
 	d.dead = true
 }
 
+// planFault draws the connection fault of the run (call it after starts/ends are set).
 func (d *c15Driver) planFault() {
 	w := 1 - d.readDir
-	switch d.tape.Choose(10, "fault") {
-	case 5:
-		d.faultKind, d.faultAt = "read-eof", d.tape.Choose(len(d.data[d.readDir])+1, "fault-at")
+	readAt := func() int {
+		// often exactly at the end of a frame, so that whole final frames arrive with the error
+		if e := d.ends[d.readDir]; len(e) > 0 && d.tape.Bool(1, 2, "fault-at-frame-end") {
+			return e[d.tape.Choose(len(e), "fault-at-frame")]
+		}
+		return d.tape.Choose(len(d.data[d.readDir])+1, "fault-at")
+	}
+	switch d.tape.Choose(12, "fault") {
 	case 6:
-		d.faultKind, d.faultAt = "read-error", d.tape.Choose(len(d.data[d.readDir])+1, "fault-at")
+		d.faultKind, d.faultAt = "read-eof", readAt()
 	case 7:
-		d.faultKind, d.faultAt = "read-error-with-data", d.tape.Choose(len(d.data[d.readDir])+1, "fault-at")
+		d.faultKind, d.faultAt = "read-error", readAt()
 	case 8:
-		d.faultKind, d.faultAt = "write-short", d.tape.Choose(len(d.data[w])+1, "fault-at")
+		d.faultKind, d.faultAt = "read-error-with-data", readAt()
 	case 9:
+		d.faultKind, d.faultAt = "read-eof-with-data", readAt()
+	case 10:
+		d.faultKind, d.faultAt = "write-short", d.tape.Choose(len(d.data[w])+1, "fault-at")
+	case 11:
 		d.faultKind, d.faultAt = "close-early", d.tape.Choose(len(d.data[0])+len(d.data[1])+1, "fault-at")
 	}
 }
@@ -941,20 +1003,27 @@ func (d *c15Driver) step(dir, n int) {
 	}
 	pos := d.pos[dir]
 	if dir == d.readDir {
+		hitsFault := strings.HasPrefix(d.faultKind, "read-") && pos+n >= d.faultAt && d.faultAt >= pos
 		if d.tape.Bool(1, 16, "timeout") {
+			if !hitsFault && d.tape.Bool(1, 2, "timeout-with-data") {
+				// the bytes arrive together with a timeout error: they count, the connection goes on
+				d.res.Faults["read-timeout-with-data"]++
+				d.doRead(n, c15Timeout{})
+				return
+			}
 			d.res.Faults["read-timeout"]++
 			d.doRead(0, c15Timeout{})
 			if d.dead {
 				return
 			}
 		}
-		if strings.HasPrefix(d.faultKind, "read-") && pos+n >= d.faultAt && d.faultAt >= pos {
+		if hitsFault {
 			m := d.faultAt - pos
 			ferr := c15ErrRead
-			if d.faultKind == "read-eof" {
+			if strings.HasPrefix(d.faultKind, "read-eof") {
 				ferr = io.EOF
 			}
-			if d.faultKind == "read-error-with-data" {
+			if strings.HasSuffix(d.faultKind, "-with-data") {
 				d.doRead(m, ferr)
 			} else {
 				if m > 0 {
@@ -1009,7 +1078,6 @@ func newC15Driver(tape *simrt.Tape, res *simwork.Result, isServer bool, data [2]
 	d.inner = &c15Conn{in: data[d.readDir], wKeep: -1}
 	d.sink = &c15Sink{start: time.Now()}
 	d.conn = TracingHTTP2Conn(d.inner, isServer, d.sink)
-	d.planFault()
 	return d
 }
 
@@ -1068,22 +1136,24 @@ func c15Envelopes(body []byte) (evts []c15Evt, optional *c15Evt) {
 }
 
 type c15Exp struct {
-	started   bool
-	unchecked bool // the statement leaves this stream's outcome open
-	startAt   time.Duration
-	startIdx  int
-	reqBody   []byte
-	respBody  []byte
-	reqEnded  bool
-	gotResp   bool
-	respHdr   []c15Hdr
-	trailers  []c15Hdr
-	final     string // "", end, client-rst, server-rst, goaway, conn
-	code      http2.ErrCode
-	finalAt   time.Duration
-	finalIdx  int
-	terminals int
-	clientRST bool
+	started        bool
+	unchecked      bool // the statement leaves this stream's outcome open
+	startAt        time.Duration
+	startIdx       int
+	reqBody        []byte
+	respBody       []byte
+	reqEnded       bool
+	gotResp        bool
+	respHdr        []c15Hdr
+	trailers       []c15Hdr
+	final          string // "", end, client-rst, server-rst, goaway, conn
+	code           http2.ErrCode
+	finalAt        time.Duration
+	finalIdx       int
+	terminals      int
+	clientRST      bool
+	goAwaysAtStart int // GOAWAY frames seen before the request HEADERS
+	cutByGoAway    int // ordinal of the GOAWAY that ended the stream (0: none)
 }
 
 type c15End struct {
@@ -1094,7 +1164,8 @@ type c15End struct {
 // c15ModelStream walks the completely delivered frames in completion order.
 func c15ModelStream(s *c15Stream, seq []*c15Frame, end *c15End, skipFirst bool) *c15Exp {
 	e := &c15Exp{}
-	goAway, lastID := false, uint32(0)
+	// RFC 9113 6.8: the last GOAWAY's last-stream-id is the limit in force
+	goAway, lastID, nGoAway := false, uint32(0), 0
 	finish := func(kind string, code http2.ErrCode, f *c15Frame) bool {
 		e.terminals++
 		if kind == "client-rst" {
@@ -1112,8 +1183,11 @@ func c15ModelStream(s *c15Stream, seq []*c15Frame, end *c15End, skipFirst bool) 
 	for _, f := range seq {
 		if f.Kind == fkGoAway {
 			goAway, lastID = true, f.LastID
+			nGoAway++
 			if e.started && s.ID > f.LastID {
-				finish("goaway", f.Code, f)
+				if finish("goaway", f.Code, f) {
+					e.cutByGoAway = nGoAway
+				}
 			}
 			continue
 		}
@@ -1123,6 +1197,7 @@ func c15ModelStream(s *c15Stream, seq []*c15Frame, end *c15End, skipFirst bool) 
 		live := e.final == ""
 		switch {
 		case f.Kind == fkHeaders && f.Role == "request":
+			e.goAwaysAtStart = nGoAway
 			if goAway && s.ID > lastID {
 				e.unchecked = true // a stream opened after GOAWAY above its last id
 				return e
@@ -1214,6 +1289,15 @@ func c15MatchEvts(got, want []c15Evt, optional *c15Evt, lenient bool) bool {
 // c15Compare checks one delivered trace against the expectation; "" = equal.
 func c15Compare(s *c15Stream, e *c15Exp, d c15Delivery, end *c15End) (class, detail string) {
 	tr := d.tr
+	if class, detail = c15CompareRequest(s, d); class != "" {
+		return class, detail
+	}
+	return c15CompareRest(s, e, tr, end)
+}
+
+// c15CompareRequest: the trace belongs to this stream (name, request line, headers).
+func c15CompareRequest(s *c15Stream, d c15Delivery) (class, detail string) {
+	tr := d.tr
 	if tr.TestName != s.Name {
 		return "c15/request", fmt.Sprintf("trace carries test name %q, the stream's is %q", tr.TestName, s.Name)
 	}
@@ -1228,6 +1312,10 @@ func c15Compare(s *c15Stream, e *c15Exp, d c15Delivery, end *c15End) (class, det
 	if want := c15HeaderMap(s.ReqFields); !c15SameHeader(tr.Request.Header, want) {
 		return "c15/request", fmt.Sprintf("request headers %v, generated %v", tr.Request.Header, want)
 	}
+	return "", ""
+}
+
+func c15CompareRest(s *c15Stream, e *c15Exp, tr Trace, end *c15End) (class, detail string) {
 	if len(tr.Events) == 0 {
 		return "c15/events", "trace without events"
 	}
@@ -1402,20 +1490,49 @@ func c15Judge(cs *c15Case, seq []*c15Frame, end *c15End, got []c15Delivery) *c15
 		s     int
 	}
 	var items []item
+	var goAways []*c15Frame
+	for _, f := range seq {
+		if f.Kind == fkGoAway {
+			goAways = append(goAways, f)
+		}
+	}
+	if len(goAways) >= 2 {
+		v.probes["goaway-twice"]++
+		if goAways[1].LastID < goAways[0].LastID {
+			v.probes["goaway-lowered"]++
+		}
+	}
 	for i, s := range cs.Streams {
 		e := exps[i]
+		if s.Named && len(goAways) >= 2 && e.goAwaysAtStart == 1 && (e.started || e.unchecked) {
+			v.probes["stream-between-goaways"]++
+		}
 		if !s.Named || !e.started || e.unchecked {
 			if e.unchecked {
 				want[i] = -1
 				v.probes["stream-after-goaway"]++
+				if s.Named && e.goAwaysAtStart >= 2 {
+					v.probes["stream-opened-above-final-limit"]++
+				}
 			}
 			continue
+		}
+		if e.cutByGoAway >= 2 {
+			v.probes["stream-above-final-limit"]++
+		}
+		if e.goAwaysAtStart >= 1 && e.final != "goaway" && e.final != "conn" && e.final != "" {
+			v.probes["stream-below-limit-after-goaway"]++
 		}
 		items = append(items, item{e.startIdx, true, i})
 		if e.final != "" {
 			items = append(items, item{e.finalIdx, false, i})
 			want[i] = 1
 			deadline[i] = end.at
+			if e.final == "goaway" && e.finalAt+retryWait < deadline[i] {
+				// completed when the limiting GOAWAY is seen; delivery may be held
+				// back for a retry like a refusal, but not until the socket closes
+				deadline[i] = e.finalAt + retryWait
+			}
 		} else {
 			want[i] = 0 // still open (only when the connection did not end; not reached)
 		}
@@ -1472,6 +1589,16 @@ func c15Judge(cs *c15Case, seq []*c15Frame, end *c15End, got []c15Delivery) *c15
 			continue
 		}
 		if want[i] == -1 || openName[s.Name] {
+			// outcome open (see the assumptions); still: never twice, never another stream's data
+			if len(ds) > 1 {
+				v.viol("c15/trace-duplicate", "%s: %d traces delivered", desc, len(ds))
+			} else if len(ds) == 1 {
+				if class, detail := c15CompareRequest(s, ds[0]); class != "" {
+					v.viol(class, "%s: %s", desc, detail)
+				} else if e.unchecked && (ds[0].tr.Response != nil || ds[0].tr.Err == nil) {
+					v.viol("c15/end", "%s was opened above the GOAWAY limit in force and never answered, but its trace has a response or a clean end (error %v)", desc, ds[0].tr.Err)
+				}
+			}
 			continue
 		}
 		if len(ds) > 1 {
@@ -1551,14 +1678,14 @@ func c15WellformedRun(t *testing.T, tape *simrt.Tape, o simwork.Opts) *simwork.R
 }
 
 func c15WellformedBody(tape *simrt.Tape, o simwork.Opts, res *simwork.Result) {
-	cs := c15Generate(tape, o.Tier)
+	cs := c15Generate(tape, o.Tier, false)
 	sample := &c15Sample{Scenario: "c15-wellformed", Role: "client"}
 	if cs.IsServer {
 		sample.Role = "server"
 	}
 	res.Sample = sample
 	for _, s := range cs.Streams {
-		sd := c15StreamDesc{ID: s.ID, Name: s.Name, RetryOf: s.RetryOf, ReqEnd: s.ReqEnd, ReqBody: len(s.ReqBody), Resp: s.RespKind, RespBody: len(s.RespBody), Early: s.Early}
+		sd := c15StreamDesc{ID: s.ID, Name: s.Name, RetryOf: s.RetryOf, ReqEnd: s.ReqEnd, ReqBody: len(s.ReqBody), Resp: s.RespKind, RespBody: len(s.RespBody), Early: s.Early, Ignored: s.Ignored}
 		if strings.HasPrefix(s.RespKind, "rst") {
 			sd.Code = s.Code.String()
 		}
@@ -1588,10 +1715,17 @@ func c15WellformedBody(tape *simrt.Tape, o simwork.Opts, res *simwork.Result) {
 		d.ends[dir] = append(d.ends[dir], len(cs.bytes[dir]))
 		sort.Ints(d.ends[dir])
 	}
+	d.planFault()
 	nDone := 0 // completion order equals the global order: the done frames are a prefix
 	d.after = func() {
 		for nDone < len(cs.Frames) && d.pos[cs.Frames[nDone].Dir] >= cs.Frames[nDone].end {
 			cs.Frames[nDone].doneAt = d.now()
+			if f := cs.Frames[nDone]; d.callErr != nil && f.Dir == d.readDir && (f.EndStream || f.Kind == fkRST || f.Kind == fkGoAway) {
+				res.Probes["stream-end-delivered-with-error"]++
+				if _, isTimeout := d.callErr.(c15Timeout); isTimeout {
+					res.Probes["stream-end-delivered-with-timeout"]++
+				}
+			}
 			nDone++
 		}
 	}
@@ -1801,7 +1935,7 @@ func c15BytesBody(tape *simrt.Tape, o simwork.Opts, res *simwork.Result) {
 	case 0, 1:
 		var frames []*c15Frame
 		if mode == 0 {
-			frames = c15Generate(tape, o.Tier).Frames
+			frames = c15Generate(tape, o.Tier, true).Frames
 		} else {
 			frames = c15Soup(tape)
 		}
@@ -1926,6 +2060,7 @@ func c15BytesBody(tape *simrt.Tape, o simwork.Opts, res *simwork.Result) {
 			d.mix(uint64(b))
 		}
 	}
+	d.planFault()
 	for !d.dead {
 		var sides []int
 		for dir := 0; dir < 2; dir++ {
